@@ -455,7 +455,22 @@ fn has_dup_keys(_text: &[u8]) -> bool {
 // ---------------------------------------------------------------------------------------------
 
 fn ws(rng: &mut Rng) -> &'static str {
+	if STRICT_LAYOUT.with(|c| c.get()) {
+		return *rng.pick(&["", "", " ", "\t", "\n", "\r", "  \n"]);
+	}
 	*rng.pick(&["", "", " ", "\t", "\n", "\r", "\x0c", "  \n"])
+}
+
+thread_local! {
+	/// only the freedoms RFC 8259 allows (no form feed as whitespace, no leading zeros) – for texts other writers may produce
+	static STRICT_LAYOUT: std::cell::Cell<bool> = const { std::cell::Cell::new(false) };
+}
+
+/// `variant_text` restricted to valid JSON
+fn variant_text_strict(rng: &mut Rng, v: &JsonValue, out: &mut String) {
+	STRICT_LAYOUT.with(|c| c.set(true));
+	variant_text(rng, v, out);
+	STRICT_LAYOUT.with(|c| c.set(false));
 }
 
 /// re-serialise `v` with free layout choices: whitespace, `\uXXXX` escapes (upper/lower case),
@@ -468,7 +483,7 @@ fn variant_text(rng: &mut Rng, v: &JsonValue, out: &mut String) {
 			0 => format!("{n:e}"),
 			1 => format!("{n:E}").replace("E", if rng.chance(1, 2) { "E+" } else { "E" }).replace("E+-", "E-"),
 			2 if n.fract() == 0.0 && n.abs() < 1e15 => format!("{n}.0"),
-			3 if *n >= 0.0 => format!("0{n}"),
+			3 if *n >= 0.0 && !STRICT_LAYOUT.with(|c| c.get()) => format!("0{n}"),
 			_ => n.to_string(),
 		}),
 		JsonValue::String(s) => variant_string(rng, s, out),
@@ -598,6 +613,9 @@ const FIXED_TEXTS: &[&str] = &[
 	"  [ 1 , 2 ]  ", "\u{c}1", "\u{b}1", "[1]x", "{\"a\":[1,{\"b\":null}]}", "\u{feff}1", "é", "[é]", "\"é\"", "\"aaaaaaaaaaaaaaé\"x",
 	"\"aaaaaaaaaaaaaé\" x", "[\"aaaaaaaaaaaaé\" x", "[\"aaaaaaaaaaaaaaaaaaé\",x", "[\"😊aaaaaaaaaaaaaa\",x", "[\"😊aaaaaaaaaaaaa\",x", "[\"😊aaaaaaaaaaaa\",x", "[\"😊aaaaaaaaaaa\",x",
 	"nan", "NaN", "inf", "Infinity", "-inf", "tRue", "t", "f", "n",
+	// `\u` escapes at the edges of the code-point classes (controls, DEL/C1, surrogate block, BMP end)
+	"\"\\u0000\"", "\"\\u001f\"", "\"\\u0020\"", "\"\\u007e\"", "\"\\u007f\"", "\"\\u0080\"", "\"\\u009f\"", "\"\\u00a0\"", "\"\\ud7ff\"", "\"\\ud800\"", "\"\\uD800\"",
+	"\"\\udbff\"", "\"\\udc00\"", "\"\\udfff\"", "\"\\ue000\"", "\"\\ufffe\"", "\"\\uffff\"", "\"\\uFFFF\"", "\"\\u00e9\\u00E9\"", "\"\\ud83d\\ude00\"", "\"\\u10000\"",
 ];
 
 // ---------------------------------------------------------------------------------------------
@@ -611,8 +629,8 @@ fn replay_line(out: &mut Out, line: &str) {
 		},
 		["C17p", h] => emit_text(out, &unhex(h), "replay"),
 		["C17n", _] => nd::replay_line(out, line),
-		_ if t[0] == "C17c" || t[0] == "C17h" || t[0] == "C17b" => io::replay_line(out, line),
-		_ if t[0] == "C17t" || t[0] == "C17u" => tj::replay_line(out, line),
+		_ if ["C17c", "C17h", "C17b", "C17r", "C17i"].contains(&t[0]) => io::replay_line(out, line),
+		_ if ["C17t", "C17u", "C17m", "C17x"].contains(&t[0]) => tj::replay_line(out, line),
 		_ => out.notes.push(format!("unknown replay line {line}")),
 	}
 }
@@ -647,6 +665,14 @@ pub fn run(args: &Args) {
 	}
 	for t in FIXED_TEXTS {
 		emit_text(&mut out, t.as_bytes(), "fixed");
+	}
+	// lengths around the pre-allocated buffers of the string (32) and number (16) parsers
+	for n in [15usize, 16, 17, 31, 32, 33, 63, 64, 65] {
+		emit_value(&mut out, &JsonValue::String("s".repeat(n)));
+		emit_value(&mut out, &JsonValue::String("é".repeat(n)));
+		emit_text(&mut out, format!("1{}", "0".repeat(n - 1)).as_bytes(), "fixed");
+		emit_text(&mut out, format!("0.{}1", "0".repeat(n - 3)).as_bytes(), "fixed");
+		emit_text(&mut out, format!("1e{}", "0".repeat(n - 3) + "5").as_bytes(), "fixed");
 	}
 	// deep nesting
 	for d in [1usize, 8, 64, 300, 1023, 1024, 1025, 1100] {
